@@ -98,7 +98,9 @@ class Bar(object):
             notes = NoteContainer(notes)
         elif isinstance(notes, list):
             notes = NoteContainer(notes)
-        if self.current_beat + 1.0 / duration <= self.length or self.length == 0.0:
+        # current_beat is a float running total of reciprocals: allow for its rounding
+        # error, so that an entry that exactly fills the bar is not refused.
+        if self.current_beat + 1.0 / duration <= self.length + 1e-9 or self.length == 0.0:
             self.bar.append([self.current_beat, duration, notes])
             self.current_beat += 1.0 / duration
             return True
